@@ -32,6 +32,12 @@ CONTROLS = [
 
 
 def check(cx):
+    _env_wrapped = True
+    from . import c03
+    return _check_own(cx) + c03.envelopes(cx, ID)
+
+
+def _check_own(cx):
     return m0(cx) + m1(cx) + m2(cx) + m3(cx) + m4(cx) + m5(cx) + m6(cx) + m7(cx) + m8(cx) + m9(cx)
 
 
@@ -432,7 +438,7 @@ def m9(cx):
         return []
     from . import c01
     out = []
-    for f in c01.p3(cx):
+    for f in c01.p3(cx, items=True):
         if any(t in f.key for t in ('merge::MergeObserver', 'zip::ZipObserver', 'combine_latest::CombineLatestObserver', 'Option<')):
             out.append(Finding(ID, 'M9', f.key, f.ok, f.msg, f.loc, f.witness))
     if len(out) < 6:
